@@ -110,6 +110,72 @@ class MemoCfg:
         return super().raises(kind, text, node, st)
 
 
+def explicit_mask_unchanged(ctx, RULE, P) -> None:
+    import copy
+
+    from ..pse import Enumerator as _En
+    from ..threads import ThreadCfg as _TC
+
+    ini = P.find_method("Inotify", "__init__")
+    if ini is None:
+        raise AnalysisError("anchor vanished: Inotify.__init__")
+    params = [a.arg for a in ini.node.args.args + ini.node.args.kwonlyargs]
+    mp = next((a for a in params if "mask" in a), None)
+    if mp is None:
+        raise AnalysisError("Inotify.__init__: no mask parameter")
+    consts = inotify_constants(P)
+    name_of = {v: k for k, v in consts.items() if k.startswith("IN_") and v and v & (v - 1) == 0}
+    seen: dict[str, int] = {}
+    defaults: list[int] = []
+    for p in _En(_TC(P, follow_attrs=False)).run(ini, selfcls="Inotify"):
+        if p.outcome[0] != "raise" and p.conds().get(f"{mp} is None") is True:
+            for e in p.evs:
+                if e.kind == "store" and e.extra.get("attr", "").endswith("mask"):
+                    try:
+                        v = P.fold(ast.parse(e.extra.get("value"), mode="eval").body, ini.module, ini.cls)
+                    except SyntaxError:
+                        v = None
+                    if isinstance(v, int):
+                        defaults.append(v)
+        if p.outcome[0] == "raise" or p.conds().get(f"{mp} is None") is not False:
+            continue
+        for e in p.evs:
+            if e.kind == "store" and e.extra.get("attr", "").endswith("mask"):
+                seen[e.extra.get("value")] = e.line
+    if not seen:
+        raise AnalysisError("Inotify.__init__: no store of the mask on a path where the caller gives one")
+    for txt, line in sorted(seen.items()):
+        loc = f"{ini.module.relpath}:{line}"
+        construct = f"Inotify.__init__ with a given mask stores `{txt[:70]}`"
+        if txt == mp:
+            ctx.ok(RULE, construct, loc)
+            continue
+        # which bits does the stored term force, whatever the caller's mask?
+        t = ast.parse(txt, mode="eval").body
+        vals = []
+        for k in (0, 0xFFFFFFFF):
+
+            class T(ast.NodeTransformer):
+                def visit_Name(self, n):
+                    return ast.copy_location(ast.Constant(k), n) if n.id == mp else n
+
+            vals.append(P.fold(T().visit(copy.deepcopy(t)), ini.module, ini.cls))
+        if not all(isinstance(v, int) for v in vals):
+            raise AnalysisError(f"{construct}: not a foldable function of the caller's mask")
+        on, off = vals[0] & 0xFFFFFFFF, ~vals[1] & 0xFFFFFFFF
+        if defaults:  # a flag that every unfiltered watch carries (lacks) as well is no difference between the two
+            on &= ~(defaults[0] if len(defaults) == 1 else __import__("functools").reduce(lambda a, b: a & b, defaults))
+            off &= __import__("functools").reduce(lambda a, b: a | b, defaults)
+        flags = lambda m: " | ".join(name_of.get(1 << b, hex(1 << b)) for b in range(32) if m & (1 << b))
+        ctx.check(
+            not on and not off,
+            RULE,
+            construct,
+            f"a mask computed from the filter is changed on its way to the kernel: {('forced on: ' + flags(on)) if on else ''}{' ; ' if on and off else ''}{('forced off: ' + flags(off)) if off else ''} -- for filtered watches only (the default mask of an unfiltered watch does not pass here), so the two no longer see the same notifications",
+            loc,
+        )
+
+
 def run(ctx) -> None:
     P = ctx.P
     R = ctx.rule(
@@ -143,6 +209,12 @@ def run(ctx) -> None:
     )
     RN = ctx.rule("C11/unfiltered-mask", "no filter -> the reader's default mask (None is passed through)", floor=1)
 
+    RKM = ctx.rule(
+        "C11/explicit-mask-reaches-the-kernel-unchanged",
+        "the reader stores a mask it is given (the one computed from the filter) as it is: no flag is forced on or off for filtered watches only (IN_EXCL_UNLINK, IN_ONLYDIR, ... change what the kernel reports, so the filtered watch would no longer see what the unfiltered one sees)",
+        floor=1,
+    )
+    explicit_mask_unchanged(ctx, RKM, P)
     consts = inotify_constants(P)
     flag_of_prop = inotify_flag_of_property(P)
     name_of = {v: k for k, v in consts.items() if k.startswith("IN_") and v and v & (v - 1) == 0 and k not in ("IN_CLOEXEC", "IN_NONBLOCK")}
